@@ -70,7 +70,7 @@ SAFE_METHODS = {
     str: {"join", "format", "lower", "upper", "split", "startswith", "endswith", "strip", "replace", "rstrip", "lstrip"},
     tuple: {"index", "count"},
     set: {"add", "update"},
-    bytes: {"hex"},
+    bytes: {"hex", "startswith", "endswith", "find", "rfind", "index", "count", "decode", "isascii", "strip", "lstrip", "rstrip", "split", "upper", "lower"},
     bytearray: {"append", "extend"},
 }
 PRIMS = (int, str, bool, float, bytes, type(None))
@@ -185,6 +185,12 @@ class ConstEval:
         if isinstance(s, ast.AugAssign):
             cur = self.eval(s.target, env, mod)
             v = self.eval(s.value, env, mod)
+            if isinstance(s.op, ast.Add) and isinstance(cur, (list, bytearray)) and isinstance(v, (list, tuple, bytes, bytearray)):
+                cur.extend(v)  # `+=` on a list / bytearray mutates the object in place (aliases see it)
+                return
+            if isinstance(s.op, ast.BitOr) and isinstance(cur, (dict, set)) and isinstance(v, (dict, set)):
+                cur.update(v)
+                return
             self.assign(s.target, self.binop(s.op, cur, v), env, mod)
             return
         if isinstance(s, ast.If):
